@@ -47,6 +47,30 @@ def build_dcop(env, spec, kinds=("fin",), lo=None, hi=None):
     return variables, cons, tabs, varcost
 
 
+def make_net(env, label, *args, **kw):
+    """Net(...) with a failure to build the graph / the computations turned into an obligation (returns None then)"""
+    try:
+        return Net(env, *args, **kw)
+    except Exception:  # noqa - engine signals (Unsupported, PathAbort) are BaseExceptions and pass through
+        import traceback
+        tb = traceback.format_exc(limit=8)
+        if "/pvc/" in tb.splitlines()[-2] if len(tb.splitlines()) > 1 else False:
+            raise
+        env.prove(label, False, detail=lambda: tb)
+        return None
+
+
+def get_spec(env, p, specs):
+    """the problem of a shape: a named one, or (``spec='rand<n>'``) a seeded random instance with n variables drawn per
+    run - for the sampled native pass on sizes beyond exhaustive path exploration"""
+    name = p["spec"]
+    if name.startswith("rand"):
+        inst = env.choice("instance", list(range(p.get("inst_from", 0), p.get("inst_to", 40))))
+        return fx.random_spec(inst, int(name[4:]), max_dom=p.get("max_dom", 3), nary=p.get("nary", False), connected=p.get("connected", True),
+                              unary=p.get("unary", True))
+    return specs[name]
+
+
 def global_cost(assignment, tabs, varcost, variables):
     """F(a) = sum of constraints + sum of variables' own costs (the property's definition)"""
     tot = 0
